@@ -87,7 +87,7 @@ func (cs ChainStorage) FindConversionChain(crdName string, rule Rule) []Rule {
 				}
 
 				//nolint
-				newPath := append(chain.PathsCache[ruleToCheck], nextRule)
+				newPath := append(append([]Rule{}, chain.PathsCache[ruleToCheck]...), nextRule)
 
 				// This path is already discovered.
 				p := chain.SearchPathForRule(newRule)
